@@ -1,6 +1,6 @@
 """C17 - settings queries are mutually consistent."""
 from .. import obs as O
-from .common import (Contract, ansi_values, history, run_cases, tier_sizes, safe_obs, settings_texts, small_scope_values,
+from .common import (trie_case, Contract, ansi_values, history, run_cases, tier_sizes, safe_obs, settings_texts, small_scope_values,
                      small_scope_on, SS_CODES)
 from ..gen import gen_bound, gen_range, gen_settings
 
@@ -231,6 +231,21 @@ def drive(ctx, mon, tier, only_case=None):
                             for rev in (False, True):
                                 v.find_settings(sel, a if a is not None else 0, b, rev)
             ctx.extra['n_small_scope_values'] = nv
+            return
+        if case == 1:
+            tsels = [['31'], ['1'], ['34', '1'], ['31', '31']] if tier == 'thorough' else [['31'], ['1']]
+            tb = [None, -1, 0, 1, 2, 3, 4] if tier == 'thorough' else [None, 0, 1, 2, 3]
+
+            def visit(v, p):
+                for i in range(-1, 5):
+                    v.ansi_settings_at(i)
+                    v.settings_at(i)
+                for sel in tsels:
+                    for a in tb:
+                        for b in tb:
+                            for rev in (False, True):
+                                v.find_settings(sel, a if a is not None else 0, b, rev)
+            trie_case(ctx, mon, tier, 2, 3, visit=visit, cls=L.AnsiStr if ctx.shard % 4 == 3 else None)
             return
         profile = 'mixed' if rng.random() < 0.25 else 'wf'
         history(L, rng, ex, rng.randint(1, sz['nops']), sz['maxlen'], profile, WEIGHTS)
